@@ -171,7 +171,7 @@ def canaries(ctx, groups, scns, rejected):
         g = copy("full")
         for e in g:
             if e["ev"] == "Ret" and e["call"] == "Handshake":
-                e["cs"]["version"] = 770
+                e["cs"]["version"] = 768          # a version no handshake of the batch negotiated
         tests.append(("forged-version", g, ("C11", "state")))
     if base["resume"]:
         g = copy("resume")
@@ -265,7 +265,7 @@ def run(ctx):
         jobs = [("X12mc_t%d" % i, 1, "thorough", c) for i, c in enumerate(chunks)]
         deep_rows = [i + 1 for i, r in enumerate(rows) if not r["variant"] and not r["reneg"] and r["id"] in ("Chrome-58", "Firefox-120", "iOS-14")]
         jobs += [("X12mc_deep%d" % r, 2, "quick", [r]) for r in deep_rows]
-        per = max(1500, 60000 // len(jobs))
+        per = max(1200, 40000 // len(jobs))
 
         def job(j):
             got, res = mc_run(ctx, j[0], j[1], j[2], j[3], 5)
@@ -342,18 +342,22 @@ def run(ctx):
                     stats["server_messages_not_natural"] += e["k"] != "self" or len(e["mut"]) > 0
         del events, groups
 
-    # ---- vacuity of the replay
-    for key in ("handshake_ok", "handshake_failed", "resumed_ok", "renegotiation_ok", "renegotiation_refused", "renegotiation_failed",
+    # ---- vacuity of the replay. The counters are observations of the client; a client that is wrong may fail to show one of
+    # them (e.g. never delivers a stapled response): then the rejections are the verdict, and the gap is only noted.
+    vacuous = ["the replay never showed '%s'" % key for key in
+               ("handshake_ok", "handshake_failed", "resumed_ok", "renegotiation_ok", "renegotiation_refused", "renegotiation_failed",
                 "client_certificate_sent", "client_certificate_empty", "certificate_verify_sent", "ocsp_delivered", "scts_delivered",
-                "alpn_negotiated", "echo_ok", "server_messages_not_natural"):
-        if not stats.get(key):
-            raise vlib.Machinery("vacuous: the replay never showed '%s'" % key)
+                "alpn_negotiated", "echo_ok", "server_messages_not_natural") if not stats.get(key)]
     never = [d for d in REQUIRED_DEVS if not dev_ok.get(d)]
     if never:
-        raise vlib.Machinery("vacuous: server deviations never applied completely on the real server: %r" % never)
+        vacuous.append("server deviations never applied completely on the real server: %r" % never)
     if stats["unused_scenarios"] * 10 > len(scns):
-        raise vlib.Machinery("the model's idea of the server's natural flight is off: %d of %d scenarios had edits whose anchor never came"
-                             % (stats["unused_scenarios"], len(scns)))
+        vacuous.append("the model's idea of the server's natural flight is off: %d of %d scenarios had edits whose anchor never came"
+                       % (stats["unused_scenarios"], len(scns)))
+    if vacuous and not rejections:
+        raise vlib.Machinery("vacuous: " + "; ".join(vacuous))
+    for v in vacuous:
+        ctx.note("not exercised in this run (the code under test is rejected anyway): " + v)
 
     # ---- 5. every class of rejection is reproduced alone before it is reported
     bysig = collections.defaultdict(list)
